@@ -1326,6 +1326,8 @@ impl Formatter {
         let mut is_min_set = false;
         let mut is_sec_set = false;
         let mut is_fraction_set = false;
+        // Set once a meridian code has been processed, whether or not the input still had text for it.
+        let mut is_ampm_set = false;
 
         let mut dow: Option<WeekDay> = None;
         let mut doy: Option<u32> = None;
@@ -1444,7 +1446,7 @@ impl Formatter {
                                 "format code (hour) appears twice".try_to_string()?,
                             ));
                         }
-                        if dt.ampm.is_some() {
+                        if is_ampm_set {
                             return Err(Error::ParseError(
                                 "'HH24' precludes use of meridian indicator".try_to_string()?,
                             ));
@@ -1560,7 +1562,7 @@ impl Formatter {
                 }
                 Field::AmPm(style) => {
                     if T::HAS_TIME && !T::IS_INTERVAL_DT {
-                        if dt.ampm.is_some() {
+                        if is_ampm_set {
                             return Err(Error::ParseError(
                                 "format code (am/pm) appears twice".try_to_string()?,
                             ));
@@ -1574,6 +1576,7 @@ impl Formatter {
                         s = rem;
 
                         dt.ampm = am_pm;
+                        is_ampm_set = true;
                         if dt.ampm.is_some() {
                             dt.adjust_hour12();
                         }
